@@ -374,6 +374,13 @@ func judge(c *Case) verdict {
 			if _, ok3 := sameObs(ref3, g.Observation, compareCompletion); ok3 {
 				key = "probe:unresolvable-callee-args-first"
 			}
+		} else {
+			// the program does call an unresolvable callee with arguments (otherwise this run would have been identical
+			// to the first one, which the interpreter supports) but evaluating the arguments first leads outside the
+			// interpreter's subset: the known finding is involved and the case cannot be judged either way
+			evid.Excluded("known finding unresolvable-callee-args-first involved, attribution run outside the interpreter's subset")
+			v.defJudged = false
+			return v
 		}
 		v.f = &evid.Failure{Check: "definitional", Key: key, Msg: fmt.Sprintf("goja and the definitional interpreter disagree on the %s (strict=%v placement=%s)\n  goja : %s\n  spec : %s\nsource:\n%s", what, c.Strict, c.Placement, showObs(g.Observation), showObs(ref), src), Case: c, Expected: ref, Observed: g.Observation}
 		return v
